@@ -1,10 +1,10 @@
 (* Properties/C02.v - Response fidelity: the caller gets exactly the response the server
    produced.  Only statements; every proof is a lemma of Proofs/*.  Theorems that were proved
-   inside a Section are restated through the type of the lemma ([Check] prints the full
-   statement, with the Section hypotheses as premises, into the build log). *)
+   inside a Section are stated here in their closed form (the Section variables and
+   hypotheses are the leading quantifiers / premises). *)
 From ReqV Require Import Lib.Bytes Model.H1Resp Model.H1Render Model.RespRender Model.StreamBody
   Model.RespAPI Model.H1Client Model.MuxResp
-  Proofs.RespRenderProofs Proofs.H1RoundTrip Proofs.RespAPIProofs Proofs.MuxRespProofs Proofs.CrossProto.
+  Proofs.RespRenderProofs Proofs.H1RoundTrip Proofs.RespAPIProofs Proofs.MuxRespProofs Proofs.C02CrossProto.
 
 (* ---------- HTTP/1.1: parse (render x) = x ---------- *)
 
@@ -36,29 +36,89 @@ Print Assumptions C02_status_line_round_trip.
 (* h1_parse_render, declared length: status, header multimap (framing fields anywhere in the
    section; "Connection: close" consumed), ContentLength, body = exactly the declared bytes,
    rest untouched *)
-Theorem C02_h1_parse_render_content_length : ltac:(let t := type of h1_cl_round_trip in exact t).
+Theorem C02_h1_parse_render_content_length :
+  forall (meth : bytes) (bufsize : nat) (code : Z) (reason : bytes) (fs : list wfield),
+  (100 <= code <= 999)%Z -> reason_ok reason = true -> fields_ok fs ->
+  pragma_neutral (map field_of fs) ->
+  forall (t : bytes) (body rest : bytes),
+  is_head meth = false -> body_allowed_for_status code = true ->
+  no_field K_TE (map field_of fs) -> values_of K_CL (map field_of fs) = [t] ->
+  parse_uint63 (trim_string t) = Some (Z.of_nat (length body)) ->
+  parse_response meth bufsize (render_head code reason fs ++ body ++ rest) =
+    Accepted
+      {| r_proto := H11; r_code := code; r_status := status_text code reason;
+         r_header := collect (after_conn (map field_of fs));
+         r_content_length := Z.of_nat (length body); r_chunked := false;
+         r_close := wants_close (map field_of fs);
+         r_framing := if (Z.of_nat (length body) =? 0)%Z then H1Resp.FrNone
+                      else FrLength (Z.of_nat (length body));
+         r_trailer_declared := [] |}
+      {| b_data := body; b_end := BOk; b_trailer := []; b_rest := rest |}.
 Proof. exact h1_cl_round_trip. Qed.
-Check h1_cl_round_trip.
 Print Assumptions C02_h1_parse_render_content_length.
 
 (* h1_parse_render, chunked: EVERY partition into non-empty chunks, any spelling of the size
    lines (leading zeros, hex case, extensions), trailer section with any fields: body = the
    concatenation, Trailer = announced keys + the trailer fields sent, rest untouched *)
-Theorem C02_h1_parse_render_chunked : ltac:(let t := type of h1_chunked_round_trip in exact t).
+Theorem C02_h1_parse_render_chunked :
+  forall (meth : bytes) (bufsize : nat) (code : Z) (reason : bytes) (fs : list wfield),
+  (100 <= code <= 999)%Z -> reason_ok reason = true -> fields_ok fs ->
+  pragma_neutral (map field_of fs) ->
+  forall (tfs : list wfield) (v : bytes) (cs : list (bytes * bytes)) (l0 rest : bytes),
+  is_head meth = false -> body_allowed_for_status code = true ->
+  values_of K_TE (map field_of fs) = [v] -> bytes_eqb (to_lower v) (bs "chunked") = true ->
+  no_field K_CL (map field_of fs) ->
+  existsb bad_trailer_key (declared_keys (map field_of fs)) = false ->
+  chunks_ok bufsize 0 cs -> size_line_ok bufsize l0 0 ->
+  fields_ok tfs -> trailer_fits bufsize tfs ->
+  parse_response meth bufsize
+    (render_head code reason fs ++ H1Render.render_chunks cs ++ l0 ++ H1Render.CRLF ++
+     render_wfields tfs ++ H1Render.CRLF ++ rest) =
+    Accepted
+      {| r_proto := H11; r_code := code; r_status := status_text code reason;
+         r_header := collect (without K_TRAILER (without K_TE (after_conn (map field_of fs))));
+         r_content_length := -1; r_chunked := true;
+         r_close := wants_close (map field_of fs); r_framing := H1Resp.FrChunked;
+         r_trailer_declared := declared_trailer (map field_of fs) |}
+      {| b_data := concat (map snd cs); b_end := BOk;
+         b_trailer := merge_set_header (declared_trailer (map field_of fs)) (collect (map field_of tfs));
+         b_rest := rest |}.
 Proof. exact h1_chunked_round_trip. Qed.
-Check h1_chunked_round_trip.
 Print Assumptions C02_h1_parse_render_chunked.
 
 (* h1_parse_render, until close: everything after the head is the body *)
-Theorem C02_h1_parse_render_until_close : ltac:(let t := type of h1_close_round_trip in exact t).
+Theorem C02_h1_parse_render_until_close :
+  forall (meth : bytes) (bufsize : nat) (code : Z) (reason : bytes) (fs : list wfield),
+  (100 <= code <= 999)%Z -> reason_ok reason = true -> fields_ok fs ->
+  pragma_neutral (map field_of fs) ->
+  forall body : bytes,
+  is_head meth = false -> body_allowed_for_status code = true ->
+  no_field K_TE (map field_of fs) -> no_field K_CL (map field_of fs) ->
+  parse_response meth bufsize (render_head code reason fs ++ body) =
+    Accepted
+      {| r_proto := H11; r_code := code; r_status := status_text code reason;
+         r_header := collect (after_conn (map field_of fs));
+         r_content_length := -1; r_chunked := false; r_close := true;
+         r_framing := FrUntilClose; r_trailer_declared := [] |}
+      {| b_data := body; b_end := BOk; b_trailer := []; b_rest := [] |}.
 Proof. exact h1_close_round_trip. Qed.
-Check h1_close_round_trip.
 Print Assumptions C02_h1_parse_render_until_close.
 
 (* HEAD / 1xx / 204 / 304: no body is read, whatever Content-Length says; rest untouched *)
-Theorem C02_h1_no_body_by_rule : ltac:(let t := type of h1_nobody_round_trip in exact t).
+Theorem C02_h1_no_body_by_rule :
+  forall (meth : bytes) (bufsize : nat) (code : Z) (reason : bytes) (fs : list wfield),
+  (100 <= code <= 999)%Z -> reason_ok reason = true -> fields_ok fs ->
+  pragma_neutral (map field_of fs) ->
+  forall (cls : list bytes) (rest : bytes),
+  no_body_by_rule code meth = true -> no_field K_TE (map field_of fs) ->
+  values_of K_CL (map field_of fs) = cls ->
+  cls = [] \/ (exists (t : bytes) (n : Z), cls = [t] /\ parse_uint63 (trim_string t) = Some n) ->
+  exists r : resp,
+    parse_response meth bufsize (render_head code reason fs ++ rest) =
+      Accepted r {| b_data := []; b_end := BOk; b_trailer := []; b_rest := rest |} /\
+    r_code r = code /\ r_status r = status_text code reason /\
+    r_header r = collect (after_conn (map field_of fs)) /\ r_framing r = H1Resp.FrNone.
 Proof. exact h1_nobody_round_trip. Qed.
-Check h1_nobody_round_trip.
 Print Assumptions C02_h1_no_body_by_rule.
 
 Theorem C02_h1_trailer_round_trip : forall bufsize tfs rest,
@@ -129,17 +189,47 @@ Print Assumptions C02_trailer_fields_collect.
    (any partition, any padding) and HTTP/3 (any partition): the caller obtains the same
    status, the same header multimap [collect (a_fields a)], the same body through the same
    read mode, on all three *)
-Theorem C02_cross_protocol_h1 : ltac:(let t := type of h1_view in exact t).
+Theorem C02_cross_protocol_h1 :
+  forall (a : aresp) (fs : list wfield) (cs : list (bytes * bytes)) (l0 : bytes) (last : h2frame)
+         (m : mode) (sizes : list nat),
+  (100 <= a_code a <= 999)%Z -> body_allowed_for_status (a_code a) = true ->
+  reason_ok (a_reason a) = true -> fields_ok fs -> map field_of fs = a_fields a ->
+  end_to_end (a_fields a) = true ->
+  chunks_ok br_size 0 cs -> size_line_ok br_size l0 0 -> concat (map snd cs) = a_body a ->
+  fd_end last = true ->
+  exists (r : resp) (b : body_result),
+    h1_exchange (bs "GET") m sizes
+      (render_head (a_code a) (a_reason a) (fs ++ [te_chunked]) ++ H1Render.render_chunks cs ++
+       l0 ++ H1Render.CRLF ++ render_wfields [] ++ H1Render.CRLF ++ []) =
+      Some {| d_resp := r; d_body := b;
+              d_api := run_mode m (a_code a) sizes {| rd_rem := a_body a; rd_end := BEof |} |} /\
+    r_code r = a_code a /\ r_header r = collect (a_fields a) /\ b_trailer b = [] /\
+    b_data b = a_body a.
 Proof. exact h1_view. Qed.
-Check h1_view.
 Print Assumptions C02_cross_protocol_h1.
-Theorem C02_cross_protocol_h2 : ltac:(let t := type of h2_view in exact t).
+Theorem C02_cross_protocol_h2 :
+  forall (a : aresp) (fs : list wfield) (fr : list h2frame) (last : h2frame) (m : mode) (sizes : list nat),
+  (100 <= a_code a <= 999)%Z -> body_allowed_for_status (a_code a) = true ->
+  fields_ok fs -> map field_of fs = a_fields a -> end_to_end (a_fields a) = true ->
+  open_frames fr -> fd_end last = true -> payload (fr ++ [last]) = a_body a ->
+  h2_exchange false
+    [{| hh_status := code_text (a_code a); hh_fields := lower_fields (a_fields a); hh_end := false |}]
+    (fr ++ [last]) None m sizes =
+  Some {| m_code := a_code a; m_header := collect (a_fields a); m_cl := -1; m_trailer := [];
+          m_api := run_mode m (a_code a) sizes {| rd_rem := a_body a; rd_end := BEof |} |}.
 Proof. exact h2_view. Qed.
-Check h2_view.
 Print Assumptions C02_cross_protocol_h2.
-Theorem C02_cross_protocol_h3 : ltac:(let t := type of h3_view in exact t).
+Theorem C02_cross_protocol_h3 :
+  forall (a : aresp) (fs : list wfield) (last : h2frame) (parts : list bytes) (m : mode) (sizes : list nat),
+  (100 <= a_code a <= 999)%Z -> body_allowed_for_status (a_code a) = true ->
+  reason_ok (a_reason a) = true -> fields_ok fs -> map field_of fs = a_fields a ->
+  end_to_end (a_fields a) = true -> fd_end last = true -> concat parts = a_body a ->
+  h3_exchange false
+    [{| h3_status := code_text (a_code a); h3_flds := lower_fields (a_fields a) |}]
+    parts None m sizes =
+  Some {| m_code := a_code a; m_header := collect (a_fields a); m_cl := -1; m_trailer := [];
+          m_api := run_mode m (a_code a) sizes {| rd_rem := a_body a; rd_end := BEof |} |}.
 Proof. exact h3_view. Qed.
-Check h3_view.
 Print Assumptions C02_cross_protocol_h3.
 
 (* ---------- read modes ---------- *)
@@ -155,15 +245,32 @@ Print Assumptions C02_reads_concat.
 (* read_modes_agree: auto-read Bytes() = restored Body streamed with any positive sizes =
    ToBytes again = DisableAutoReadResponse + streaming = ToBytes (twice) = bytes copied to the
    output writer / file *)
-Theorem C02_read_modes_agree : ltac:(let t := type of read_modes_agree in exact t).
+Theorem C02_read_modes_agree :
+  forall (code : Z) (sizes : list nat) (d : bytes),
+  (199 < code)%Z -> positive_sizes sizes -> length d < length sizes ->
+  let body := {| rd_rem := d; rd_end := BEof |} in
+  o_bytes (run_mode MAuto code sizes body) = Some d /\
+  o_stream (run_mode MAuto code sizes body) = d /\
+  o_again (run_mode MAuto code sizes body) = d /\
+  o_stream (run_mode MStream code sizes body) = d /\
+  o_stream (run_mode MToBytes code sizes body) = d /\
+  o_again (run_mode MToBytes code sizes body) = d /\
+  o_out (run_mode MOutput code sizes body) = d.
 Proof. exact read_modes_agree. Qed.
-Check read_modes_agree.
 Print Assumptions C02_read_modes_agree.
 
 (* a body stream that fails after d: every mode reports the failure and delivers exactly d *)
-Theorem C02_failure_surfaces_in_every_mode : ltac:(let t := type of failure_surfaces_in_every_mode in exact t).
+Theorem C02_failure_surfaces_in_every_mode :
+  forall (code : Z) (sizes : list nat) (d : bytes),
+  (199 < code)%Z -> positive_sizes sizes -> length d < length sizes ->
+  let body := {| rd_rem := d; rd_end := BFail |} in
+  (let o := run_mode MAuto code sizes body in
+   o_err o = true /\ o_bytes o = Some d /\ o_again_ok o = false) /\
+  (let o := run_mode MStream code sizes body in o_stream o = d /\ o_stream_end o = Some BFail) /\
+  (let o := run_mode MToBytes code sizes body in
+   o_stream o = d /\ o_stream_end o = Some BFail /\ o_again_ok o = false) /\
+  (let o := run_mode MOutput code sizes body in o_err o = true /\ o_out o = d).
 Proof. exact failure_surfaces_in_every_mode. Qed.
-Check failure_surfaces_in_every_mode.
 Print Assumptions C02_failure_surfaces_in_every_mode.
 
 Example C02_nonvacuous :
